@@ -1,9 +1,12 @@
 /-
-  C12 — every info line is well-formed (the shape part).
+  C12 — every info line is well-formed, and its principal variation is a legal line.
 
   Model: `infoLine` / `idLoop` (`search` in `src/search.rs`).
 -/
 import Jence.Lemmas.Top
+import Jence.Lemmas.PvLine
+import Jence.Lemmas.LegalMoves
+import Jence.Props.C01
 namespace Jence.Props.C12
 open Jence
 
@@ -39,5 +42,129 @@ theorem idLoop_step (R : Rules) (cfg : Cfg) (g : Game) (count cur : Nat) (alpha 
       else if r.1 ≤ alpha || r.1 ≥ beta then idLoop R cfg g count (cur + 1) (-Gen.INFINITY) Gen.INFINITY r.1 r.2
       else idLoop R cfg g count (cur + 1) (r.1 - 50) (r.1 + 50) r.1 (r.2.print (infoLine r.1 cur r.2)) := by
   simp only [idLoop]
+
+/-- the moves an info line prints after `pv` are row 0 of the PV table -/
+theorem info_pv_is_row0 (e : Env) : (List.range (e.pvLen.getD 0 0)).map (fun i => e.pvAt 0 i) = pvRow e 0 := by
+  unfold pvRow
+  simp
+
+/-- every info line `idLoop` prints carries a legal line: the predicate follows the loop (T12.1c) and asks for
+    `LegalLine` exactly where an info line is printed -/
+def AllPrintedLegal (R : Rules) (cfg : Cfg) (g : Game) : Nat → Nat → Int → Int → Env → Prop
+  | 0, _, _, _, _ => True
+  | count + 1, cur, alpha, beta, e =>
+    let r := negamax R cfg negaFuel g cur alpha beta { e with followPv := true }
+    if r.2.stopping then True
+    else if r.1 ≤ alpha ∨ r.1 ≥ beta then AllPrintedLegal R cfg g count (cur + 1) (-Gen.INFINITY) Gen.INFINITY r.2
+    else LegalLine R g (pvRow r.2 0) ∧
+      AllPrintedLegal R cfg g count (cur + 1) (r.1 - 50) (r.1 + 50) (r.2.print (infoLine r.1 cur r.2))
+
+/-- **T12.2** Every info line of a search prints a legal line: each move of its PV is generated in, and accepted by
+    `make_search_move` from, the position its predecessors lead to - for every rules instance, depth, window sequence,
+    table content (cold or warm), history, poll schedule. (A line is printed only for an iteration that finished inside
+    its aspiration window; inside the window the triangular PV table holds, row by row, the line of the last move that
+    raised alpha, because every node on it was searched with an open window, reset its row on entry, and copied its
+    child's row only when the child's value lay strictly inside the child's window.) -/
+theorem info_lines_carry_legal_pv (R : Rules) (cfg : Cfg) (g : Game) :
+    ∀ (count cur : Nat) (alpha beta score : Int) (e : Env), PvWf e → e.ply = 0 →
+      (idLoop R cfg g count cur alpha beta score e).2.2.rep.overflow = false →
+      AllPrintedLegal R cfg g count cur alpha beta e := by
+  intro count
+  induction count with
+  | zero => intro cur alpha beta score e _ _ _; trivial
+  | succ count ih =>
+    intro cur alpha beta score e wf hp ho
+    simp only [idLoop] at ho
+    simp only [AllPrintedLegal]
+    have wf0 : PvWf ({ e with followPv := true } : Env) := PvWf.of_same (e := e) rfl rfl wf
+    have hfr := negamax_frame R cfg negaFuel g cur alpha beta { e with followPv := true }
+    have hpv := negamax_pv R cfg negaFuel g cur alpha beta { e with followPv := true } wf0 (by show e.ply ≤ 63; omega)
+    generalize negamax R cfg negaFuel g cur alpha beta { e with followPv := true } = r at hfr hpv ho ⊢
+    obtain ⟨sc, e2⟩ := r
+    simp only at ho hpv ⊢
+    by_cases hst : e2.stopping = true
+    · rw [if_pos hst]; trivial
+    · have hrun : e2.stopping = false := by simpa using hst
+      rw [if_neg hst] at ho ⊢
+      by_cases hout : sc ≤ alpha ∨ sc ≥ beta
+      · have hc : (decide (sc ≤ alpha) || decide (sc ≥ beta)) = true := by simpa using hout
+        rw [if_pos hc] at ho
+        rw [if_pos hout]
+        have ho2 : e2.rep.overflow = false := (idLoop_frame R cfg g count (cur + 1) (-Gen.INFINITY) Gen.INFINITY sc e2).no_ov ho
+        obtain ⟨_, w2, _⟩ := hpv ho2
+        exact ih (cur + 1) _ _ sc e2 w2 (by rw [(hfr.2 ho2).ply]; exact hp) ho
+      · have hc : ¬ ((decide (sc ≤ alpha) || decide (sc ≥ beta)) = true) := by simpa using hout
+        rw [if_neg hc] at ho
+        rw [if_neg hout]
+        have hpf := print_frame e2 (infoLine sc cur e2) hrun
+        have ho3 : (e2.print (infoLine sc cur e2)).rep.overflow = false :=
+          (idLoop_frame R cfg g count (cur + 1) (sc - 50) (sc + 50) sc _).no_ov ho
+        have ho2 : e2.rep.overflow = false := hpf.no_ov ho3
+        obtain ⟨_, w2, j2⟩ := hpv ho2
+        have hrow := j2 hrun (by omega) (by omega)
+        have hrow0 : LegalLine R g (pvRow e2 0) := by
+          have h := hrow.2
+          have hp0 : ({ e with followPv := true } : Env).ply = 0 := hp
+          rw [hp0] at h; exact h
+        refine ⟨hrow0, ih (cur + 1) _ _ sc _ (PvWf.of_same (e := e2) rfl rfl w2) ?_ ho⟩
+        show e2.ply = 0
+        rw [(hfr.2 ho2).ply]; exact hp
+
+/-- the state a search starts from has a well-formed (empty) PV table -/
+theorem fresh_pvwf (tt : TT) (rep : RepTable) : PvWf (Env.fresh tt rep) := by
+  refine ⟨by simp [Env.fresh], by simp [Env.fresh], fun q => ?_⟩
+  simp only [Env.fresh]
+  by_cases hq : q < 64
+  · simp [Array.getD_eq_getD_getElem?, hq]
+  · simp [Array.getD_eq_getD_getElem?, hq]
+
+/-- **T12.2 for a whole search**: all info lines of `search` carry legal lines -/
+theorem search_info_lines_legal (R : Rules) (cfg : Cfg) (g : Game) (depth : Int) (tt : TT) (rep : RepTable)
+    (ho : (searchLoopEnd R cfg g depth tt rep).2.2.rep.overflow = false) :
+    AllPrintedLegal R cfg g (if depth == -1 then Gen.MAX_PLY else (depth % 256).toNat) 1 (-Gen.INFINITY) Gen.INFINITY (Env.fresh tt rep) :=
+  info_lines_carry_legal_pv R cfg g _ 1 _ _ 0 _ (fresh_pvwf tt rep) rfl ho
+
+/-- a line of rules moves, each legal in the position its predecessors lead to (by the rules specification) -/
+def SpecLine : Spec.Position → List Spec.SMove → Prop
+  | _, [] => True
+  | p, sm :: rest => sm ∈ Spec.legalMoves p ∧ SpecLine (Spec.apply p sm) rest
+
+/-- **T12.2 against the rules**: a legal line of the engine (what the info lines carry, by T12.2) denotes a line of
+    moves each legal by the rules specification, played from the rules position the root denotes - for a consistent root
+    in which the side not to move is not in check (clocks away from their limits along the line) -/
+theorem legal_line_is_rules_line : ∀ (ms : List Move) (g : Game) (b : Board), Wf g b → NoKingCapture g →
+    g.halfMoves + ms.length < 255 → g.fullMoves + ms.length < 65535 → LegalLine chessRules g ms →
+    SpecLine (Spec.abs g) (ms.map smove) := by
+  intro ms
+  induction ms with
+  | nil => intro g b _ _ _ _ _; trivial
+  | cons m ms ih =>
+    intro g b wf nk hh hf hl
+    obtain ⟨hgen, g', hmk, hrest⟩ := hl
+    have hgen' : m ∈ generateMoves g true := hgen
+    have hmk' : makeCore g m = some g' := hmk
+    simp only [List.length_cons] at hh hf
+    have fits := gen_fits wf nk true m hgen'
+    have flags := gen_flags wf true m hgen'
+    have hleg : m ∈ legalValues g := by
+      rw [C01.legalValues_eq_made g wf.ok.epLe]
+      exact List.mem_filter.2 ⟨hgen', by rw [hmk']; rfl⟩
+    have hsm : smove m ∈ Spec.legalMoves (Spec.abs g) := (legal_refines wf nk _).2 ⟨m, hleg, rfl⟩
+    have wf' := makeCore_wf g g' m b wf fits hmk'
+    have nk' := makeCore_nk g g' m b wf fits hmk'
+    obtain ⟨ch, cf⟩ := makeCore_clocks g g' m hmk'
+    have hh' : g'.halfMoves + ms.length < 255 := by
+      rw [ch]; split
+      · omega
+      · have : (g.halfMoves + 1) % 256 = g.halfMoves + 1 := Nat.mod_eq_of_lt (by omega)
+        omega
+    have hf' : g'.fullMoves + ms.length < 65535 := by
+      rw [cf]; split
+      · omega
+      · have : (g.fullMoves + 1) % 65536 = g.fullMoves + 1 := Nat.mod_eq_of_lt (by omega)
+        omega
+    refine ⟨hsm, ?_⟩
+    rw [← apply_refines wf fits flags hmk' (by omega) (by omega)]
+    exact ih g' _ wf' nk' hh' hf' hrest
 
 end Jence.Props.C12
